@@ -94,7 +94,43 @@ def run(tier):
                     pass
         shutil.rmtree(os.path.join(work, "img"), ignore_errors=True)
         results = [res.get(d, {"ok": False, "err": "replay process died or hung", "out": []}) for d in dirs]
-        return pts, events, results, rc
+        # byte-level cuts of the LAST file of the cleanly closed log: with buffered appends a kill can leave the file cut at any
+        # offset behind the file header (the flush boundary is arbitrary relative to the records), so every such cut must replay
+        cuts = []
+        if pts:
+            files, _ = pts[-1].snap
+            wals = sorted(f for f in files if f.endswith(".wal"))
+            if wals:
+                last = wals[-1]
+                size = len(files[last])
+                lens = sorted(set([0] + list(range(8, min(size, 40) + 1)) + list(range(max(8, size - 300), size + 1))))
+                if len(wals) > 20:
+                    lens = lens[::5] + [size]
+                cdirs = []
+                for L in lens:
+                    d = os.path.join(work, "cut", "c%06d" % L)
+                    crash.materialize(pts[-1].snap, root, d)
+                    with open(os.path.join(d, os.path.relpath(last, root)), "r+b") as f:
+                        f.truncate(L)
+                    cdirs.append(d)
+                cres = {}
+                for c in range(0, len(cdirs), 100):
+                    ip = os.path.join(work, "cut%d.json" % c)
+                    with open(ip, "w") as f:
+                        json.dump(dict(cfg, dirs=cdirs[c:c + 100]), f)
+                    rc2, out, err2, to2 = common.run_proc([binary, "walreplay", ip], 180)
+                    for ln in (out or b"").decode("utf-8", "replace").splitlines():
+                        try:
+                            r = json.loads(ln)
+                            cres[r["dir"]] = r
+                        except ValueError:
+                            pass
+                shutil.rmtree(os.path.join(work, "cut"), ignore_errors=True)
+                for L, d in zip(lens, cdirs):
+                    r = cres.get(d, {"ok": False, "err": "replay process died or hung", "out": []})
+                    cuts.append({"t": "cut", "file": os.path.basename(last), "len": L, "size": size, "ok": bool(r.get("ok")),
+                                 "err": (r.get("err") or "")[:200], "out": r.get("out") or []})
+        return pts, events, results, rc, cuts
 
     def kind_many(name):
         return name.startswith("many")
@@ -102,7 +138,8 @@ def run(tier):
     recs = common.parallel(rec, sessions, nthreads=4)
     lines = []
     npoints = 0
-    for ci, ((name, cfg), (pts, events, results, rc)) in enumerate(zip(sessions, recs)):
+    ncuts = 0
+    for ci, ((name, cfg), (pts, events, results, rc, cuts)) in enumerate(zip(sessions, recs)):
         lines.append({"t": "reset", "case": ci})
         by_n = {}
         for p, r in zip(pts, results):
@@ -124,6 +161,8 @@ def run(tier):
         for nn in sorted(k for k in by_n if k >= len(events)):
             cps(nn)
         npoints += len(pts)
+        lines += cuts
+        ncuts += len(cuts)
         if rc != 0:
             o.report("wal/session-died", "session %s exited rc=%s" % (name, rc), cfg)
     tp = os.path.join(common.scratch("C07-judge"), "judge.ndjson")
@@ -138,6 +177,8 @@ def run(tier):
         mm = re.search(r'desc \|-> \\"([^"\\]*)', m)
         if mm:
             d = crash.normalize_desc(mm.group(1))
+        elif "cut" in b["clause"]:
+            d = "cut"
         sig = "wal/%s/%s" % (b["clause"], d)
         if sig in seen:
             continue
@@ -145,8 +186,9 @@ def run(tier):
         o.report(sig, "session %s line %s clause %s: %s" % (name, b["line"], b["clause"], b.get("ev", "")[:600]), {"session": name, "cfg": cfg})
     log("[C07] %d sessions, %d crash images replayed, %s conforming lines, %d rejected" % (len(sessions), npoints, nok, len(bad)))
     o.traces = len(sessions)
-    o.evaluations = npoints
-    o.nontrivial = npoints
+    o.evaluations = npoints + ncuts
+    o.nontrivial = npoints + ncuts
+    o.extra["byte_level_cuts_of_last_file"] = ncuts
     o.rule = ("evaluations = crash images (one per completed mutating syscall of a WAL session, every 7th for the 100+ file session) on which the real "
               "replay ran; plus per-call write/fsync conformance lines; all images distinct by construction of the prefix walk")
     o.sample({"session": sessions[0][0], "ops": sessions[0][1]["ops"][:10], "maxsize": sessions[0][1]["maxsize"], "wbuf": sessions[0][1]["wbuf"]})
